@@ -35,6 +35,9 @@ var (
 	vsOutsMsg  bool
 	vsReadErr  bool
 	vsChunkOutOK bool
+	vsChunkBad   [3]bool // per chunk: outputs invalid
+	vsChunkNoOut [3]bool // per chunk: _outs unreadable
+	vsChunkMetas []*Metadata
 )
 
 // ---- stubs
@@ -82,6 +85,14 @@ func vsReadInto(self *Metadata, name MetadataFileName, target interface{}) error
 
 //verif:stub (*github.com/martian-lang/martian/martian/core.Metadata).read
 func vsRead(self *Metadata, name MetadataFileName, limit int64) (LazyArgumentMap, error) {
+	for i, m := range vsChunkMetas {
+		if m == self {
+			if vsChunkNoOut[i] {
+				return nil, errors.New("chunk outs unreadable")
+			}
+			return LazyArgumentMap{}, nil
+		}
+	}
 	if vsReadErr {
 		return nil, errors.New("read failed")
 	}
@@ -175,7 +186,14 @@ func vsGetAlarms(self *Fork, alarms *strings.Builder) {}
 func vsVerifyDef(self *Chunk) {}
 
 //verif:stub (*github.com/martian-lang/martian/martian/core.Chunk).verifyOutput
-func vsChunkVerifyOutput(self *Chunk, output LazyArgumentMap) bool { return vsChunkOutOK }
+func vsChunkVerifyOutput(self *Chunk, output LazyArgumentMap) bool {
+	// contract of the real function: false is returned only after _errors was written
+	if self.index < len(vsChunkBad) && vsChunkBad[self.index] {
+		self.metadata.WriteErrorString("invalid chunk outs")
+		return false
+	}
+	return true
+}
 
 //verif:stub (*github.com/martian-lang/martian/martian/core.Node).getJobReqs
 func vsGetJobReqs(self *Node, jobDef *JobResources, stageType string) JobResources {
@@ -337,6 +355,7 @@ func vsWorldOne(split bool, k int) *vsWorld {
 	top := vsTop()
 	node, f := vsStageNode(top, "S", split)
 	w := &vsWorld{top: top, node: node, fork: f, split: split, k: k}
+	vsChunkMetas = nil
 	vsSymbolicContents(f.metadata, "M")
 	vsSymbolicContents(f.split_metadata, "S", StageDefsFile)
 	vsSymbolicContents(f.join_metadata, "J")
@@ -347,6 +366,9 @@ func vsWorldOne(split bool, k int) *vsWorld {
 		vsSymbolicContents(c.metadata, "C"+string(rune('0'+i)))
 		c.hasBeenRun = verifBool("C" + string(rune('0'+i)) + ".hasBeenRun")
 		f.chunks = append(f.chunks, c)
+		vsChunkMetas = append(vsChunkMetas, c.metadata)
+		vsChunkBad[i] = verifBool("C" + string(rune('0'+i)) + ".outs.invalid")
+		vsChunkNoOut[i] = verifBool("C" + string(rune('0'+i)) + ".outs.unreadable")
 	}
 	f.split_has_run = verifBool("split_has_run")
 	f.join_has_run = verifBool("join_has_run")
@@ -538,6 +560,18 @@ func H_SCHED_forkStep(splitI int, k int) {
 	}
 	if vsHas(M, CompleteFile) {
 		verifAssert(vsComplete(J), "C02: the fork completes only after its join")
+	}
+	// ---- C06: every chunk's outputs are checked before the join starts
+	if st0 == Complete.Prefixed(ChunksPrefix) && w.split && kBefore > 0 {
+		bad := false
+		for i := 0; i < kBefore; i++ {
+			bad = bad || vsChunkBad[i] || vsChunkNoOut[i]
+		}
+		if bad {
+			verifCover("a chunk produced bad outputs")
+			verifAssert(vsExecCount(J) == 0, "C06: the join does not start when any chunk's outputs are missing or invalid")
+			verifAssert(f.getState() == Failed, "C06: missing or invalid chunk outputs fail the fork")
+		}
 	}
 }
 
@@ -770,5 +804,133 @@ func H_SCHED_twoSteps(splitI int, k int, restart int) {
 	}
 	for _, c := range f.chunks {
 		verifAssert(vsExecCount(c.metadata) <= 1, "C03: no chunk job is submitted twice across steps")
+	}
+}
+
+// H_SCHED_makePrenodes: Node.makePrenodes on a stage call with an optional
+// data input bound to A.o, an optional second input bound to a constant, and
+// an optional disabling condition bound to D.flag (each presence arbitrary):
+// exactly the producers of its inputs and of its disabling condition become
+// prenodes, and each learns about its new post-node.
+func H_SCHED_makePrenodes() {
+	top := vsTop()
+	top.types = syntax.NewTypeLookup()
+	a, _ := vsStageNode(top, "A", false)
+	d, _ := vsStageNode(top, "D", false)
+	b, _ := vsStageNode(top, "B", false)
+	intT := top.types.Get(syntax.TypeId{Tname: syntax.KindInt})
+	boolT := top.types.Get(syntax.TypeId{Tname: syntax.KindBool})
+	cg := b.call.(*syntax.CallGraphStage)
+	cg.Inputs = syntax.ResolvedBindingMap{}
+	hasData, hasConst, hasDisable := verifBool("input.fromA"), verifBool("input.constant"), verifBool("disabled.fromD")
+	if hasData {
+		cg.Inputs["x"] = &syntax.ResolvedBinding{Exp: &syntax.RefExp{Kind: syntax.KindCall, Id: a.call.GetFqid(), OutputId: "o"}, Type: intT}
+	}
+	if hasConst {
+		cg.Inputs["y"] = &syntax.ResolvedBinding{Exp: &syntax.IntExp{Value: 3}, Type: intT}
+	}
+	if hasDisable {
+		cg.Disable = []syntax.Exp{&syntax.RefExp{Kind: syntax.KindCall, Id: d.call.GetFqid(), OutputId: "flag"}}
+	}
+	_ = boolT
+	b.makePrenodes()
+	verifCover("prenodes made")
+	_, onA := b.prenodes[a.GetFQName()]
+	_, onD := b.prenodes[d.GetFQName()]
+	verifAssert(onA == hasData, "C02: the producer of an input is a prenode exactly when the call consumes it")
+	verifAssert(onD == hasDisable, "C02: the producer of the disabling condition is a prenode")
+	verifAssert(len(b.prenodes) == verifIteInt(hasData, 1, 0)+verifIteInt(hasDisable, 1, 0), "C02: nothing else becomes a prenode")
+	if hasDisable {
+		_, post := d.postnodes[b.call.GetFqid()]
+		verifAssert(post, "C02: the disabling producer will wake this call when it finishes")
+	}
+}
+
+type vsGoStringer string
+
+func (s vsGoStringer) GoString() string { return string(s) }
+
+// H_SCHED_expandFork: dynamic fork expansion.  A node has nforks forks whose
+// ids share one placeholder part for an inner dimension whose size is only
+// known at run time (this is how NewNode / cloneFork build them); fork `idx`
+// learns that its collection has n elements (array mode) or the given keys
+// (map mode) and expands.
+//
+//	C03/C01: the fork gets exactly one id per element / key (itself for the
+//	first, new ids for the others), and resolving its own inner index never
+//	changes the id of a sibling fork that still shares the placeholder.
+func H_SCHED_expandFork(nforks int, mapMode int) {
+	disableUniquification = false
+	top := vsTop()
+	node, f0 := vsStageNode(top, "W", false)
+	var src syntax.MapCallSource
+	outerSrc := &syntax.ArrayExp{Value: make([]syntax.Exp, nforks)}
+	outerCall := &syntax.CallStm{Id: "OUTER", DecId: "OUTER", Mapping: outerSrc}
+	outerSplit := &syntax.SplitExp{Call: outerCall, Source: outerSrc, Value: outerSrc}
+	innerCall := &syntax.CallStm{Id: "W", DecId: "W"}
+	ref := &syntax.RefExp{Kind: syntax.KindCall, Id: "ID.ps.P.SRC", OutputId: "xs"}
+	if mapMode != 0 {
+		src = syntax.VerifUnknownSource(syntax.ModeMapCall)
+	} else {
+		src = syntax.VerifUnknownSource(syntax.ModeArrayCall)
+	}
+	innerCall.Mapping = src
+	innerSplit := &syntax.SplitExp{Call: innerCall, Source: src, Value: ref}
+	shared := &ForkSourcePart{Split: innerSplit, Id: undeterminedFork{}}
+	node.forks = nil
+	for i := 0; i < nforks; i++ {
+		f := f0
+		if i > 0 {
+			c := *f0
+			f = &c
+		}
+		f.index = i
+		f.forkId = ForkId{&ForkSourcePart{Split: outerSplit, Id: arrayIndexFork(i)}, shared}
+		f.metadata = NewMetadata(f.fqname, f.path)
+		node.forks = append(node.forks, f)
+	}
+	idx := verifInt("fork")
+	verifAssume(verifAll(idx >= 0, idx < nforks))
+	idx = verifConcretize(idx)
+	n := verifInt("elements")
+	verifAssume(verifAll(n >= 0, n <= 3))
+	n = verifConcretize(n)
+	var obj json.Marshaler
+	if mapMode != 0 {
+		m := MarshalerMap{}
+		for j := 0; j < n; j++ {
+			m["k"+string(rune('0'+j))] = nil
+		}
+		obj = m
+	} else {
+		obj = make(marshallerArray, n)
+	}
+	f := node.forks[idx]
+	newIds, err := f.expandForkFromObj(1, f.forkId[1], innerSplit, obj, vsGoStringer("SRC.xs"), nil)
+	verifCover("fork expanded")
+	verifAssert(err == nil, "expanding over a well-formed collection does not fail")
+	// siblings still wait for their own collection
+	for j, g := range node.forks {
+		if j != idx {
+			verifAssert(g.forkId[1].Id.IndexSource() != nil, "C01/C03: resolving one fork's inner index leaves its siblings' ids undetermined")
+			verifAssert(g.forkId[0].Id.ArrayIndex() == j, "C01/C03: siblings keep their outer index")
+		}
+	}
+	verifAssert(f.forkId[0].Id.ArrayIndex() == idx, "C01/C03: the expanded fork keeps its outer index")
+	if n == 0 {
+		verifAssert(len(newIds) == 0 && f.forkId[1].Id.Mode() == syntax.ModeNullMapCall, "C01/C03: an empty collection yields one disabled fork")
+	} else {
+		verifAssert(len(newIds) == n-1, "C01/C03: exactly one fork per element or key")
+		if mapMode == 0 {
+			verifAssert(f.forkId[1].Id.ArrayIndex() == 0, "C01/C03: the fork itself takes element 0")
+			for j, id := range newIds {
+				verifAssert(id[1].Id.ArrayIndex() == j+1 && id[0].Id.ArrayIndex() == idx, "C01/C03: the new forks take the remaining elements, same outer index")
+			}
+		} else {
+			verifAssert(f.forkId[1].Id.MapKey() == "k0", "C01/C03: the fork itself takes the first key")
+			for j, id := range newIds {
+				verifAssert(id[1].Id.MapKey() == "k"+string(rune('1'+j)) && id[0].Id.ArrayIndex() == idx, "C01/C03: the new forks take the remaining keys, same outer index")
+			}
+		}
 	}
 }
